@@ -293,7 +293,9 @@ def fstring_body(quote: str, raw: bool) -> str:
     return "(?:" + "|".join(alts) + ")*"
 
 
-EndRBrace = r".*?(?=\}(?!\}))}"
+# literal text of a format spec up to a nested replacement field or the end of the field (braces are never doubled here)
+SpecLBrace = r"[^{}]*\{"
+SpecRBrace = r"[^{}]*\}"
 
 tabsize = 8
 
@@ -499,8 +501,8 @@ def next_statement(state: TokenizerState) -> Generator[TokenInfo, None, bool | N
 
 
 def next_psuedo_matches(state: TokenizerState) -> TokenInfo | None:
-    if state.pos == state.max or state.in_fstring():
-        return None
+    if state.pos == state.max or state.in_fstring() or state.in_colon():
+        return None  # literal text of an f-string / a format spec is scanned by handle_fstring_progs
     match = state.match(PseudoToken)
     if (not match) or (not match.lastgroup):
         return None
@@ -539,7 +541,9 @@ def next_psuedo_matches(state: TokenizerState) -> TokenInfo | None:
                 state.pop_mode((state.lnum, end))
             state.parenlev -= 1
         elif token == ":" and state.in_braces() and state.at_parenlev():
-            state.add_prog(start + 1, end, mode=ModeInColon(state.parenlev), pattern=choice(RBrace=EndRBrace))
+            quote = next((p.quote for p in reversed(state.end_progs) if p.quote), "")  # a spec may span lines in '''/"""
+            pattern = choice(LBrace=SpecLBrace, RBrace=SpecRBrace)
+            state.add_prog(start + 1, end, mode=ModeInColon(state.parenlev), pattern=pattern, quote=quote)
         token_type = Token.OP
     elif match.lastgroup == "End":  # // continuation
         state.continued = True
